@@ -54,9 +54,11 @@ def seg(out, a, b):
     return s
 
 
-def run_ex(vi, so, script, files, fault=None, mt=None):
+def run_ex(vi, so, script, files, fault=None, mt=None, links=None):
     d = common.case_dir('s')
     common.write_files(d, files)
+    for name, tgt in (links or {}).items():
+        os.symlink(tgt, os.path.join(d, name))
     if mt:
         for name, t in mt.items():
             os.utime(os.path.join(d, name), (t, t))
@@ -183,6 +185,11 @@ def guard_case(args):
     T0 = 1500000000
     files = {'f1': b'alpha\nbeta\n'}
     mt = {'f1': T0}
+    links = None
+    if spec.get('symlink'):
+        # the edited name is a symbolic link: what counts is the file behind it
+        files = {'real': b'alpha\nbeta\n'}
+        links = {'f1': 'real'}
     script = b''
     tgt = spec['target']
     if tgt == 'own':
@@ -198,10 +205,10 @@ def guard_case(args):
         mt['other'] = {'older': T0 - 1000, 'equal': T0, 'newer': int(time.time()) + 1000, 'zero': 0}[spec['mtime_rel']]      # (zero: 1970-01-01, a legal time)
     else:
         path = 'newfile'
-    before = files.get(path if path != 'f1' else 'f1')
+    before = files.get(path if path != 'f1' else 'f1', files.get('real'))
     cmd = ('w%s%s' % ('!' if spec['bang'] else '', '' if path == 'f1' else ' ' + path)).encode()
     script += b'1s/^/X/\nec ' + S(0) + b'\n' + cmd + b'\nec ' + S(1) + b'\n' + cmd + b'\nec ' + S(2) + b'\n'
-    r, d, lg = run_ex(vi, so, script + b'q!\n', files, None, mt)
+    r, d, lg = run_ex(vi, so, script + b'q!\n', files, None, mt, links)
     got = common.readf(d, path)
     st = os.stat(os.path.join(d, path)) if os.path.exists(os.path.join(d, path)) else None
     common.rmcase(d)
@@ -353,6 +360,8 @@ def run(tier, V):
             for bang in (False, True):
                 nm = '%s/%s/%s' % (tgt, rel, 'w!' if bang else 'w')
                 gjobs.append((vi, so, nm, {'target': tgt, 'mtime_rel': rel, 'bang': bang}))
+                if tgt == 'own':
+                    gjobs.append((vi, so, nm + '/symlink', {'target': tgt, 'mtime_rel': rel, 'bang': bang, 'symlink': True}))
     gres = pmap(guard_case, gjobs)
     for key, what, wit, ok in gres:
         if key:
